@@ -39,7 +39,8 @@ def random_steps(rng, n, multi):
             return "pos(%d)" % rng.choice([-3, -1, 0, 1, 2, 5, 40])
         if r < 0.92:
             return rng.choice(["change-multi", "change-multi(0)", "change-multi(1)", "change-multi(2)", "change-multi(5)"])
-        return rng.choice(["toggle-sort", "up+up+up", "down+down", "toggle+down", "select-all+up"])
+        return rng.choice(["toggle-sort", "up+up+up", "down+down", "toggle+down", "select-all+up", "exclude", "exclude", "exclude-multi",
+                           "toggle+up+exclude", "select-all+exclude"])
     keys = list(sessions.KEYMAP.keys())
     moves = ["backward-char", "backward-char+backward-char", "beginning-of-line", "backward-word", "forward-char", "end-of-line",
              "beginning-of-line+forward-char", "beginning-of-line+forward-word"]
